@@ -574,7 +574,11 @@ pub fn build_pool(shipped_text: String, shipped_table: Vec<Entry>, n_rendered: u
             big = "+big";
         }
         // One image in eight takes liberties of debatable status; those are judged by O1 only.
-        let mut strict = !far && !stale;
+        // Sizes and shapes a careful loader might *refuse* (a sanity limit on file size, line
+        // length or entry count; a check that the list starts in 1972) are judged by O1 only: a
+        // refusal is not a wrong answer, a silently truncated table is.
+        let oversized = i % 8 == 7 && [340usize, 700, 1400, 2800][(i / 8) % 4] >= 1400;
+        let mut strict = !far && !stale && !oversized && tclass != "densefuture" && tclass != "suffix";
         if i % 8 == 3 {
             // systematic: which liberties a lenient image takes depends on its rank, not on a draw
             let k = i / 8;
@@ -600,8 +604,8 @@ pub fn build_pool(shipped_text: String, shipped_table: Vec<Entry>, n_rendered: u
             // (see below) a stray byte must be able to land in the trailing comment of a data line
             style.trailing_comment = true;
         }
-        // Long lines: comments are free text, nothing bounds their length. Up to 10 KB they are
-        // judged strictly; beyond (longer than a 16 or 64 KiB line buffer) a loader may refuse.
+        // Long lines: comments are free text, nothing bounds their length. About 1 KB is judged
+        // strictly; beyond that a loader may refuse (a line-length limit), but not truncate silently.
         let mut long = "";
         if i % 8 == 5 {
             // systematic: the first 12 long-line images cover 6 lengths x {comment line, trailing}
@@ -615,7 +619,7 @@ pub fn build_pool(shipped_text: String, shipped_table: Vec<Entry>, n_rendered: u
                     style.long_trailing_comment = n / 2;
                 }
             }
-            if n > 10_000 {
+            if n > 2_000 {
                 strict = false;
             }
             long = "+longline";
